@@ -106,6 +106,19 @@ def rule_stability(model):
         if rev is not None:
             r.finding(fi.where, n, 'sort(reverse=...) inverts the order of '
                       'the whole key, not per key spec', node=n, ctx=fi)
+    for n in own_nodes(fi.node):
+        if (isinstance(n, ast.Call) and isinstance(n.func, ast.Attribute)
+                and n.func.attr == 'reverse') or (
+                isinstance(n, ast.Call) and isinstance(n.func, ast.Name)
+                and n.func.id == 'reversed') or (
+                isinstance(n, ast.Subscript) and
+                norm(n.slice) == '::-1'):
+            r.instance(fi.where, n, 'REVERSAL')
+            r.finding(fi.where, n, 'the decorated list is reversed after '
+                      'sorting: equal keys come out in reverse original '
+                      'order (descending order must come from the '
+                      'comparison, not from reversing a stable sort)',
+                      node=n, ctx=fi)
     # the comparator compares decorated keys only
     sb = model.func('DT_In', 'SortBy.__call__')
     subs = [norm(n) for n in own_nodes(sb.node)
@@ -152,7 +165,7 @@ def rule_predicate(model):
                               'of the *value* in a dict of types: always '
                               'false, and unhashable values (lists, dicts) '
                               'raise TypeError', node=n, ctx=fi)
-    r.require_floor(2)
+    r.require_floor(1)
     return r
 
 
@@ -187,11 +200,90 @@ class _Rename(ast.NodeTransformer):
             ast.Name(id=self.mp.get(node.id, node.id), ctx=node.ctx), node)
 
 
+def key_fragments(model):
+    """Statement lists of DT_In that extract a sort key: they hold a
+    getter statement (getattr(obj, name, None) / obj.get(name)) assigning a
+    key variable.  -> list of (fi, stmts from the getter on, keyvar)"""
+    out = []
+    m = model.module('DT_In')
+    for fi in m.funcs.values():
+        for n in [fi.node] + list(own_nodes(fi.node)):
+            for fld in ('body', 'orelse'):
+                lst = getattr(n, fld, None)
+                if not isinstance(lst, list):
+                    continue
+                for i, st in enumerate(lst):
+                    kv = None
+                    if isinstance(st, ast.If):
+                        for c in st.body + st.orelse:
+                            if isinstance(c, ast.Assign) and \
+                                    isinstance(c.value, ast.Call) and \
+                                    isinstance(c.value.func, ast.Name) and \
+                                    c.value.func.id == 'getattr' and \
+                                    len(c.value.args) == 3 and \
+                                    not isinstance(c.value.args[1],
+                                                   ast.Constant) and \
+                                    isinstance(c.targets[0], ast.Name):
+                                kv = c.targets[0].id
+                    if kv:
+                        out.append((fi, lst[i:], kv))
+    return out
+
+
+def rule_order(model, r):
+    frs = key_fragments(model)
+    if not frs:
+        raise AnalysisError('C13.R4: no sort-key extractor found')
+    for fi, stmts, kv in frs:
+        call_i = none_i = None
+        for i, st in enumerate(stmts):
+            for c in ast.walk(st):
+                if isinstance(c, ast.Assign) and \
+                        isinstance(c.value, ast.Call) and \
+                        isinstance(c.value.func, ast.Name) and \
+                        c.value.func.id == kv and call_i is None:
+                    call_i = i
+            if isinstance(st, ast.If) and norm(st.test) == f'{kv} is None' \
+                    and none_i is None:
+                none_i = i
+        r.instance(fi.where, f'extractor of `{kv}`',
+                   f'call step @{call_i}, None handling @{none_i}')
+        if call_i is None:
+            r.finding(fi.where, f'extractor of `{kv}`: call step', 'a '
+                      'callable attribute is not called to obtain the sort '
+                      'key', node=stmts[0], ctx=fi)
+        if none_i is None:
+            r.finding(fi.where, f'extractor of `{kv}`: None handling',
+                      'a key of None is not mapped to the smallest key',
+                      node=stmts[0], ctx=fi)
+        elif call_i is not None and none_i < call_i:
+            r.finding(fi.where, f'extractor of `{kv}`: None handled before '
+                      'the call step', 'None is mapped to the smallest key '
+                      'before a callable key is called: a callable that '
+                      'returns None yields a raw None key (not first; '
+                      'TypeError against other keys)', node=stmts[none_i],
+                      ctx=fi)
+        else:
+            body = ast.unparse(stmts[none_i])
+            if '_Smallest' not in body:
+                r.finding(fi.where, f'extractor of `{kv}`: None handling',
+                          'None is not replaced by the smallest key',
+                          node=stmts[none_i], ctx=fi)
+    return len(frs)
+
+
 def rule_twins(model):
     r = RuleResult('C13.R4', 'the single-key and multi-key extractors agree '
                    'on getter, call-if-not-basic step, failure handling and '
-                   'None handling')
-    fi, loop, single = _extractors(model)
+                   'None handling (None handled after the call step)')
+    nfr = rule_order(model, r)
+    try:
+        fi, loop, single = _extractors(model)
+    except AnalysisError:
+        if nfr == 1:
+            # one shared extractor: agreement holds by construction
+            return r
+        raise
     multi = list(loop.body)
     # drop the trailing accumulation (k.append(akey))
     if multi and isinstance(multi[-1], ast.Expr) and \
